@@ -153,6 +153,20 @@ def roundtrip_job(job):
                     out.append({"what": "consumer", "which": k})
         if case["itype"] == "file":
             imp.close()
+        # the file is replaced (overwrite=True) by another process tensor - one step longer, another label - and
+        # imported again under the same path: the import reflects what the file holds now
+        rk = list(probes.norm_seq(apt["ranks"]))
+        other = dict(apt, len=n + 1, ranks=rk + [rk[-1]], name="second", description="second content")
+        second = build_from_abstract(other)
+        second.export(path, overwrite=True)
+        for typ in ("simple", "file"):
+            imp3 = oqupy.import_process_tensor(path, typ)
+            if len(imp3) != n + 1 or imp3.name != "second" or not all(
+                    same(imp3.get_mpo_tensor(i), second.get_mpo_tensor(i)) for i in range(n + 1)):
+                out.append({"what": "import-after-overwrite-returns-old-content", "which": typ, "len": len(imp3), "name": imp3.name})
+            if typ == "file":
+                imp3.close()
+        if case["itype"] == "file":
             # the same tensors written one by one into a file-backed tensor, caps computed by the file-backed object:
             # identical caps and consumers (the in-memory tensor is the reference)
             path3 = path + ".built.h5"
